@@ -43,18 +43,12 @@ func Abs(ctx *expr.Context, input system.Collection, args ...expr.Expression) (s
 		res := math.Abs(float64(number))
 		return system.Collection{system.Integer(res)}, nil
 	case system.Decimal:
-		// Input type conversion to float64
-		number, err := input.ToFloat64()
-		if err != nil {
+		if _, err := input.ToSingleton(); err != nil {
 			return nil, err
 		}
-		// Absolution number
-		res := math.Abs(number)
-		if !isFinite(res) {
-			return system.Collection{}, nil
-		}
-		result := decimal.NewFromFloat(res)
-		return system.Collection{system.Decimal(result)}, nil
+		// Exact: a float64 round trip would drop digits beyond its precision
+		res, _ := input[0].(system.Decimal)
+		return system.Collection{system.Decimal(decimal.Decimal(res).Abs())}, nil
 	case system.Quantity:
 		quantity := strings.Split(input[0].(system.Quantity).String(), " ")
 		// Input type conversion
